@@ -47,25 +47,40 @@ def step (_ : Unit) (line : String) : Unit × String :=
     | none => ((), "bad-op")
     | some p0 =>
       let req := parseL req
+      let implCore := if impl.startsWith "NONDET " then "NONDET" else impl
+      let rejected (cls : String) : String × String :=
+        (cls, if implCore == "NONDET" then "bad:C07:C07:load-verdict-depends-on-map-order"
+              else if implCore.startsWith "err:" then "ok" else "bad:C07:C07:invalid-configuration-accepted")
       let m : String × String :=
-        if hasCycle p0 then ("err:cycle", "ok")
-        else if danglingDep p0 then ("err:undefined", "ok")
+        if hasCycle p0 then rejected "err:cycle"
+        else if danglingDep p0 then rejected "err:undefined"
         else
           let p1 := admitNs p0 (parseL nss)
           let sel : Option Project := if nd == "1" then some (selectNoDeps p1 req) else selectProcs p1 req
           match sel with
-          | none => ("selerr", "ok")
+          | none => ("selerr", if implCore.startsWith "err:" then "bad:C07:C07:valid-configuration-rejected" else "ok")
           | some p2 =>
             match withProcesses p2 [] with
-            | none => ("runerr", "ok")
+            | none => ("runerr", if implCore.startsWith "err:" then "bad:C07:C07:valid-configuration-rejected" else "ok")
             | some l =>
               let enabled := sortStrings ((p2.filter (!·.disabled)).map (·.key))
               let mo := (l.filter (!isDeferred ·)).map (·.key)
               let launched := sortStrings mo
               let io := implOrder impl
               let good := orderOk p2 io
-              (s!"enabled={showS enabled} launched={showS launched} order={showS (if good then io else mo)}",
-               if good || !(impl.startsWith "enabled=") then "ok" else "bad:C07:C07:order-not-topological")
+              let field (k : String) : String :=
+                match impl.splitOn (k ++ "=[") with
+                | [_, r] => (r.splitOn "]").headD ""
+                | _ => "?"
+              let v :=
+                if implCore == "NONDET" then "bad:C07:C07:load-verdict-depends-on-map-order"
+                else if implCore.startsWith "err:" then "bad:C07:C07:valid-configuration-rejected"
+                else if !(impl.startsWith "enabled=") then "ok"
+                else if field "enabled" != ",".intercalate enabled then "bad:C07:C07:selection-is-not-the-dependency-closure"
+                else if field "launched" != ",".intercalate launched then "bad:C07:C07:launched-set-differs-from-enabled-non-foreground"
+                else if !good then "bad:C07:C07:order-not-topological"
+                else "ok"
+              (s!"enabled={showS enabled} launched={showS launched} order={showS (if good then io else mo)}", v)
       ((), m.1 ++ " ||| " ++ m.2)
   | _ => ((), "bad-op")
 
